@@ -48,7 +48,21 @@ DataProgs == {
     NPath(<<NName(ka), NPred(NName(kb), <<NNum(IntV(0))>>)>>, FALSE)
 }
 
+\* ill-typed and gappy sort keys / group keys / aggregates over every small array of records
+kk == <<107>>
+KV == {Undef, IntV(1), Str(kx), Bool(TRUE), Arr(<<IntV(1)>>)}
+Rec(v) == IF IsUndef(v) THEN Obj(<< <<kb, IntV(0)>> >>) ELSE Obj(<< <<kk, v>> >>)
+RecArrays == {Arr(<<Rec(x), Rec(y), Rec(z)>>) : x \in KV, y \in KV, z \in KV}
+K == NPath(<<NName(kk)>>, FALSE)
+RecProgs == { NSort(NVar(""), <<[dir |-> "", e |-> K]>>), NSort(NVar(""), <<[dir |-> ">", e |-> K], [dir |-> "", e |-> K]>>),
+              NCall(NVar("sort"), <<NPath(<<NVar(""), NName(kk)>>, FALSE)>>),
+              NCall(NVar("sort"), <<NVar(""), NLambda(<<"l", "r">>, NCmpOp(">", NPath(<<NVar("l"), NName(kk)>>, FALSE), NPath(<<NVar("r"), NName(kk)>>, FALSE)))>>),
+              NGroup(NVar(""), << <<K, NVar("")>> >>), NCall(NVar("max"), <<NPath(<<NVar(""), NName(kk)>>, FALSE)>>),
+              NCall(NVar("join"), <<NPath(<<NVar(""), NName(kk)>>, FALSE)>>), NPred(NVar(""), <<K>>),
+              NCall(NVar("distinct"), <<NPath(<<NVar(""), NName(kk)>>, FALSE)>>) }
+
 Init == /\ \/ \E fn \in Fns, al \in ArgLists : case = MkCase(CallOf(fn, al), Doc)
+           \/ \E p \in RecProgs, a \in RecArrays : case = MkCase(p, a)
            \/ \E p \in DataProgs : case = MkCase(p, Doc)
         /\ out = Pending
 Next == EvaluateCase
